@@ -71,6 +71,10 @@ pub struct ChainCfg {
     /// the head caller supplies the all-zero trace id (an untraced process) instead of 0xABCD
     #[serde(default)]
     pub zero_trace_id: bool,
+    /// under the OpenTelemetry regime the head caller and its dispatch (another process) have no
+    /// subscriber: only the servers, and the nested calls their handlers make, are traced
+    #[serde(default)]
+    pub head_untraced: bool,
 }
 impl ChainCfg {
     pub fn head_tid(&self) -> u128 {
@@ -638,7 +642,14 @@ impl World {
                 let prev = self.log.begin_poll(name);
                 let mut cx = Context::from_waker(&waker);
                 if let Some(mut f) = fut {
-                    let r = catch_unwind(AssertUnwindSafe(|| f.as_mut().poll(&mut cx)));
+                    let untraced = self.cfg.head_untraced && matches!(name, Task::Caller(0) | Task::Dispatch(0));
+                    let r = catch_unwind(AssertUnwindSafe(|| {
+                        if untraced {
+                            tracing::subscriber::with_default(tracing::subscriber::NoSubscriber::default(), || f.as_mut().poll(&mut cx))
+                        } else {
+                            f.as_mut().poll(&mut cx)
+                        }
+                    }));
                     match r {
                         Ok(Poll::Pending) => {
                             self.log.end_poll(name, prev, false);
